@@ -18,6 +18,7 @@ PROPS = {
     'C05': {'units': ['chal'], 'kani': [], 'exclude': r'canonical_width'},
     'C12': {'units': ['bits', 'chal'], 'kani': [], 'only': {'chal': r'canonical_width'}},
     'C15': {'units': ['shape'], 'kani': []},
+    'C13': {'units': ['sym'], 'kani': []},
     'C09': {'units': ['prep'], 'kani': []},
     'C08': {'units': ['mmcs'], 'kani': []},
     'C16': {'units': ['meta'], 'kani': []},
@@ -161,8 +162,20 @@ META['C09'] = {
 NOT_APPLICABLE = {
     'C01': 'whole-verifier equivalence with the external native verifier (p3-uni-stark / p3-batch-stark): needs a relational spec of ~1.5 kLoC of dependency code across four generic traits; no per-function contract within reach expresses it. Its parts are decided under C05/C07/C08/C13/C14/C15/C20.',
 }
-for _p in ['C06', 'C10', 'C13', 'C14', 'C17', 'C18']:
+for _p in ['C06', 'C10', 'C14', 'C17', 'C18']:
     NOT_APPLICABLE.setdefault(_p, 'not reached yet: kernel designed in DESIGN.md §5 but its contracts are not built; not claimed')
+META['C13'] = {
+    'technique': 'Verus contracts on the extracted real symbolic compiler (work-stack walk) and the alpha-folding loops',
+    'text': 'Deductive proof, for every symbolic constraint DAG (any depth, any sharing through the cache) and every assignment of the opened values, that SymbolicCompiler::compile_base returns a target '
+            'whose value is the NATIVE evaluation of the expression (den: variable -> the opened value the native folder reads, selectors, lifted constants, +, -, negation, *): invariant = the pending '
+            'work stack, run symbolically on a stack of nodes, yields exactly [root] and every value on the stack denotes its node; the shared cache stays sound (each key maps to a target denoting its node); '
+            'termination is proved (weighted size of pending work) and no `pop` can fail. resolve_base_var / resolve_ext_var read the slice the native folder reads for each entry kind and row offset. '
+            'The two folding loops of eval_folded_circuit compute the native accumulation acc = acc*alpha + c over base constraints first, then extension constraints.',
+    'note': 'compile_ext is an ASSUMED callee contract of the same shape (not under contract). The prefix of eval_folded_circuit (AirLayout, p3 get_symbolic_constraints) is opaque: the folding part is a '
+            'slice extraction (R13) with the two constraint lists as parameters. Assumed: the cache key `node as *const _` identifies one node (NodeKey abstraction); p3-air expression types mirrored in the '
+            'prelude with Box instead of Arc; variables address existing opened values inside the two-row window (vars_in_range); builder arithmetic contracts.',
+}
+
 NOT_APPLICABLE['C04'] = ('soundness of the STARK / LogUp / FRI argument behind "an accepted proof attests a satisfying assignment" is a cryptographic statement no per-function contract here can state; '
                          'its contract-expressible parts are decided elsewhere: bus roles C09 (whose finding C09-alias-double-creator is also a C04 violation), row relations C11, metadata C16')
 
